@@ -7,6 +7,7 @@ import (
 	"encoding/json"
 	"fmt"
 	"os"
+	"regexp"
 	"strings"
 	"sync"
 	"time"
@@ -149,7 +150,7 @@ func runWorld(c *vf.Ctx, w *world, round int, specs []spec) {
 		each(func(sc *scen) { sc.phase2() })
 	}
 	if !w.srv.Alive() {
-		c.Broken("%s: server died: %v\n%s", w.name, w.srv.ExitError(), panicHead(w.srv.StdoutTail(200000)))
+		reportDeath(c, w)
 	}
 	w.observeShards(true)
 	w.observeDisk()
@@ -253,10 +254,11 @@ func replay(c *vf.Ctx) {
 	}
 	var f struct {
 		Witness struct {
-			Spec spec `json:"spec"`
+			Spec  spec   `json:"spec"`
+			World []spec `json:"world_specs"`
 		} `json:"witness"`
 	}
-	if err := json.Unmarshal(b, &f); err != nil || f.Witness.Spec.Kind == "" {
+	if err := json.Unmarshal(b, &f); err != nil || f.Witness.Spec.Kind == "" && len(f.Witness.World) == 0 {
 		c.Broken("replay: witness without scenario spec: %v", err)
 		return
 	}
@@ -270,7 +272,11 @@ func replay(c *vf.Ctx) {
 		c.RunWorker("pure", 5*time.Minute)
 		return
 	}
-	runWorld(c, newWorld(c, "replay", bin, 99, sp.Lazy), 0, []spec{sp})
+	specs := f.Witness.World
+	if len(specs) == 0 {
+		specs = []spec{sp}
+	}
+	runWorld(c, newWorld(c, "replay", bin, 99, specs[0].Lazy), 0, specs)
 }
 
 // panicHead cuts a server's stdout down to the start of its fatal report.
@@ -295,4 +301,44 @@ func countKind(specs []spec, kind string) int {
 		}
 	}
 	return n
+}
+
+var reNum = regexp.MustCompile(`[0-9]+`)
+
+// reportDeath turns a server that died with a Go panic / runtime fatal error while the
+// retention service and the scenario's writes and queries were running into a violation
+// (signature: normalised first line of the report + first frame); a death without such a
+// report is a failure of the machinery.
+func reportDeath(c *vf.Ctx, w *world) {
+	out := w.srv.StdoutTail(400000)
+	head := panicHead(out)
+	if !strings.HasPrefix(head, "panic:") && !strings.HasPrefix(head, "fatal error:") {
+		c.Broken("%s: server died: %v\n%s", w.name, w.srv.ExitError(), w.srv.StdoutTail(1500))
+		return
+	}
+	lines := strings.Split(head, "\n")
+	first := lines[0]
+	if i := strings.Index(first, "open /"); i >= 0 {
+		if j := strings.Index(first[i:], ": "); j >= 0 {
+			first = first[:i] + "open <path>" + first[i+j:]
+		}
+	}
+	first = reNum.ReplaceAllString(first, "N")
+	frame := ""
+	for i, l := range lines {
+		if strings.HasPrefix(l, "goroutine ") && i+1 < len(lines) {
+			frame = lines[i+1]
+			if k := strings.LastIndex(frame, "("); k > 0 {
+				frame = frame[:k]
+			}
+			break
+		}
+	}
+	var specs []spec
+	for _, sc := range w.scens {
+		specs = append(specs, sc.Spec)
+	}
+	wit := map[string]any{"server": w.name, "report": head, "world_specs": specs}
+	c.Violation("server-crash/"+first+"/"+frame,
+		"ts-server died with a Go panic while the retention service was deleting shards and the scenarios were writing and querying", wit)
 }
